@@ -50,12 +50,12 @@ type popStep struct {
 }
 
 type popBehaviour struct {
-	ID      string    `json:"id"`
-	Store   string    `json:"store"`
-	Names   []string  `json:"names"`
-	Steps   []popStep `json:"steps"`
-	Timeout int       `json:"timeout_ms"`
-	SrvTimeout int    `json:"srv_timeout_ms"` // POP3 idle timeout of the server (default 120 s)
+	ID         string    `json:"id"`
+	Store      string    `json:"store"`
+	Names      []string  `json:"names"`
+	Steps      []popStep `json:"steps"`
+	Timeout    int       `json:"timeout_ms"`
+	SrvTimeout int       `json:"srv_timeout_ms"` // POP3 idle timeout of the server (default 120 s)
 }
 
 type popInput struct {
